@@ -153,6 +153,32 @@ def case_cumulative_witness(ctx, nd, k, mirror=False):
             ctx.check(ctx.close(Cr[i, j], Cm[i, perm[j]], 1e-9), "D-ROT.cumulative.witness", info=dict(k=k, mirror=mirror))
 
 
+def case_float_rotation(ctx, nd, k):
+    """float64 witness on the real code (concrete run only): ST4 dissipation of a rotated spectrum is the rotated
+    dissipation, on the grids of the property's quantifier (N in {16,24,36}). Exact-arithmetic encodings cannot see
+    rounding-level ties in `abs(mutual_angle) > width`."""
+    if ctx.mode == "sym":
+        ctx.check(True, "D-ROT.float", info="executed in the concrete float64 run only")
+        return
+    import ocean_science_utilities.wavephysics.balance.st4_wave_breaking as WB
+    from ocean_science_utilities.wavephysics.balance.st4_wave_breaking import ST4WaveBreaking
+    rng = np.random.default_rng(3)
+    nf = 6
+    f = np.linspace(0.05, 0.5, nf)
+    deg = np.linspace(0, 360, nd, endpoint=False)
+    g = dict(radian_frequency=2 * np.pi * f, radian_direction=deg * np.pi / 180, frequency_step=np.full(nf, f[1] - f[0]),
+             direction_step=np.full(nd, 360.0 / nd))
+    E = rng.uniform(0.0, 1.0, (nf, nd)) * (np.exp(-((f - 0.12) / 0.05) ** 2) * 30)[:, None]
+    pars = dict(ST4WaveBreaking.default_parameters())
+    out = WB.st4_dissipation_breaking(E, np.inf, g, pars)
+    outr = WB.st4_dissipation_breaking(np.roll(E, k, axis=1), np.inf, g, pars)
+    ref = np.roll(out, k, axis=1)
+    scale = np.max(np.abs(out)) + 1e-300
+    err = float(np.max(np.abs(outr - ref)) / scale)
+    ctx.check(err < 1e-9, "D-ROT.float", info=dict(N=nd, k=k, relative_error=err,
+                                                 what="dissipation field rotates with the spectrum"))
+
+
 def _rotvec(ctx, x, y, nd, k, mirror):
     if mirror:
         return x, -y
@@ -244,6 +270,12 @@ def cases(tier):
             add("case_stress_vector", f"stress_nd{nd}_k{k}", nd=nd, k=k)
             add("case_tail_directional", f"tail_nd{nd}_k{k}", nd=nd, k=k)
         add("case_wind_input", f"wind_nd{nd}_mirror", nd=nd, k=0, mirror=True, wd=360.0 / nd)
+        # wind in the last quadrant (wind and waves straddle the 0/360 seam)
+        wq = 315.0 if nd in (4, 8) else 300.0
+        for k in ((1, 2) if nd == 4 else (1,)):
+            add("case_wind_input", f"wind_nd{nd}_seam_k{k}", nd=nd, k=k, wd=wq)
+            add("case_tail_directional", f"tail_nd{nd}_seam_k{k}", nd=nd, k=k, wd=wq)
+        add("case_wind_input", f"wind_nd{nd}_seam_mirror", nd=nd, k=0, mirror=True, wd=wq)
         add("case_saturation", f"sat_nd{nd}_mirror", nd=nd, k=0, mirror=True)
         add("case_stress_vector", f"stress_nd{nd}_mirror", nd=nd, k=0, mirror=True, wd=360.0 / nd)
         add("case_tail_directional", f"tail_nd{nd}_mirror", nd=nd, k=0, mirror=True, wd=360.0 / nd)
@@ -255,5 +287,7 @@ def cases(tier):
     for nd, k in ((4, 1), (8, 3), (12, 5)):
         add("case_cumulative_witness", f"cumwit_nd{nd}_k{k}", nd=nd, k=k, opts=dict(fold_sqrt=True, trig_mode="float"))
     add("case_cumulative_witness", "cumwit_nd8_mirror", nd=8, k=0, mirror=True, opts=dict(fold_sqrt=True, trig_mode="float"))
+    for nd, k in ((16, 3), (24, 5), (36, 7)):
+        add("case_float_rotation", f"float_rot_nd{nd}_k{k}", nd=nd, k=k, opts=dict(concrete_float=True, label="D-ROT.float"))
     add("case_cumulative", "cum_nd4_mirror", nd=4, k=0, mirror=True, opts=dict(weight=100, case_timeout_s=280 if q else 1500))
     return cs
